@@ -250,6 +250,7 @@ def main(argv=None):
     _remove_stale_scratch()
     verif_seed = int(os.environ.get("VERIF_SEED", "0"))
     tier = args.tier
+    os.environ["VERIF_DEPTH"] = tier  # the thorough tier also draws longer histories and larger workflows
     n_runs = args.runs or chk.RUNS[tier]
     budget = float(os.environ.get("VERIF_BUDGET_S", chk.BUDGET_S[tier]))
     workers = args.workers or min(16, os.cpu_count() or 1)
